@@ -128,7 +128,7 @@ CHECKS = {
               "lap() counter, end == begin advanced L*|S|, generated ++/-- walk (never before begin), empty centre => "
               "immediately invalid. non-trivial = a case with a centre of |S|>=2, L>=2 and a walk stepping backward "
               "across a lap boundary; distinct = distinct program hash"),
-        assumptions=["upward circulators are gated on the C01 oracle (cases failing it are discarded and counted)",
+        assumptions=[
                      "walks never step before begin; after reaching the end only one backward step is checked"],
         technique="rapidcheck histories + exhaustive per-state sweep of all iterators/circulators against a brute-force model of the iteration protocol",
         level_text="Every iterator/circulator class x every centre x max_laps 1..3 x generated walks on thousands of generated states.",
@@ -161,7 +161,7 @@ CHECKS = {
               "halfedge_cells/edge_cells in that order); in every closed cell adjacent_halfface_in_cell returns the "
               "unique other halfface (either halfedge orientation when unambiguous) and is involutive. non-trivial = a "
               "case with a single-fan edge of valence >=3 and >=1 adjacency check; distinct = distinct program hash"),
-        assumptions=["edges that are not a single fan are skipped and counted", "gated on the C01 oracle"],
+        assumptions=["edges that are not a single fan are skipped and counted"],
         technique="rapidcheck histories + brute-force fan classification and successor relation",
         level_text="Validity predicate (not a fixed answer) for the rotational order on every single-fan edge of generated non-manifold and manifold states.",
         level_note="Hex sheet adjacency is covered by the C16 target.",
@@ -178,7 +178,7 @@ CHECKS = {
               "predicate iff a brute-force search finds a qualifying entity. non-trivial = a case with >20 positive and "
               ">20 negative lookups; distinct = distinct program hash"),
         assumptions=["vertex-tuple lookups across parallel duplicate edges are excluded (ambiguous which edge is meant), counted",
-                     "states with non-simple faces are skipped (consecutive is ambiguous), counted", "gated on the C01 oracle"],
+                     "states with non-simple faces are skipped (consecutive is ambiguous), counted"],
         technique="rapidcheck histories + exhaustive/derived argument tuples against brute-force validity predicates",
         level_text="Soundness and completeness of every lookup on generated states against scans of the definitions.",
         level_note="Bounded mesh size.",
